@@ -19,6 +19,9 @@ use darklua_core::{Configuration, Options, Resources};
 use serde_json::{json, Value};
 use std::collections::HashMap;
 
+#[path = "c18_carriers.rs"]
+mod carriers;
+
 // ------------------------------------------------------------------------------------------
 // real code
 
@@ -74,6 +77,74 @@ enum Rule {
     /// `lits` are evaluated by the Lean model, by this harness and (as escaped regexes) by darklua;
     /// `regexes` only by the regex crate (expected survivors) and darklua.
     Comments { lits: Vec<Lit>, regexes: Vec<String> },
+    /// a pipeline of the two rules above, applied in order
+    Seq(Vec<Rule>),
+}
+
+impl Rule {
+    /// the json5 entry of one rule
+    fn entry(&self) -> Vec<String> {
+        match self {
+            Rule::Spaces => vec!["'remove_spaces'".to_owned()],
+            Rule::Comments { lits, regexes } => {
+                let all: Vec<String> = lits.iter().map(lit_to_regex).chain(regexes.iter().cloned()).collect();
+                vec![if all.is_empty() {
+                    "'remove_comments'".to_owned()
+                } else {
+                    format!("{{rule:'remove_comments',except:{}}}", serde_json::to_string(&all).unwrap())
+                }]
+            }
+            Rule::Seq(rs) => rs.iter().flat_map(|r| r.entry()).collect(),
+        }
+    }
+    fn has_spaces(&self) -> bool {
+        match self {
+            Rule::Spaces => true,
+            Rule::Comments { .. } => false,
+            Rule::Seq(rs) => rs.iter().any(|r| r.has_spaces()),
+        }
+    }
+    fn has_regexes(&self) -> bool {
+        match self {
+            Rule::Spaces => false,
+            Rule::Comments { regexes, .. } => !regexes.is_empty(),
+            Rule::Seq(rs) => rs.iter().any(|r| r.has_regexes()),
+        }
+    }
+    /// `S` / `C+pat+pat` words of the driver op `c18.seq`
+    fn words(&self) -> Vec<String> {
+        match self {
+            Rule::Spaces => vec!["S".to_owned()],
+            Rule::Comments { lits, .. } => vec![std::iter::once("C".to_owned())
+                .chain(lits.iter().map(|l| format!("{}{}{}", if l.0 { 1 } else { 0 }, if l.1 { 1 } else { 0 }, hex(l.2.as_bytes()))))
+                .collect::<Vec<_>>()
+                .join("+")],
+            Rule::Seq(rs) => rs.iter().flat_map(|r| r.words()).collect(),
+        }
+    }
+    fn to_json(&self) -> Value {
+        match self {
+            Rule::Spaces => json!({"rule":"remove_spaces"}),
+            Rule::Comments { lits, regexes } => json!({
+                "rule":"remove_comments",
+                "lits": lits.iter().map(|l| json!([l.0, l.1, l.2])).collect::<Vec<_>>(),
+                "regexes": regexes,
+            }),
+            Rule::Seq(rs) => json!({"rule":"seq","rules": rs.iter().map(|r| r.to_json()).collect::<Vec<_>>()}),
+        }
+    }
+    fn from_json(v: &Value) -> Option<Rule> {
+        match v["rule"].as_str()? {
+            "remove_spaces" => Some(Rule::Spaces),
+            "remove_comments" => {
+                let lits = v["lits"].as_array().map(|a| a.iter().filter_map(|l| Some((l[0].as_bool()?, l[1].as_bool()?, l[2].as_str()?.to_owned()))).collect()).unwrap_or_default();
+                let regexes = v["regexes"].as_array().map(|a| a.iter().filter_map(|s| s.as_str().map(str::to_owned)).collect()).unwrap_or_default();
+                Some(Rule::Comments { lits, regexes })
+            }
+            "seq" => Some(Rule::Seq(v["rules"].as_array()?.iter().filter_map(Rule::from_json).collect())),
+            _ => None,
+        }
+    }
 }
 
 #[derive(Clone, Debug)]
@@ -100,6 +171,7 @@ impl Case {
                 loc.name()
             ),
             Case::Remove { rule: Rule::Spaces, .. } => "{rules:['remove_spaces']}".to_owned(),
+            Case::Remove { rule: r @ Rule::Seq(_), .. } => format!("{{rules:[{}]}}", r.entry().join(",")),
             Case::Remove { rule: Rule::Comments { lits, regexes }, .. } => {
                 let all: Vec<String> = lits
                     .iter()
@@ -128,6 +200,7 @@ impl Case {
                 json!({"kind":"append","text":text,"loc":loc.name(),"src":src})
             }
             Case::Remove { src, rule: Rule::Spaces } => json!({"kind":"remove_spaces","src":src}),
+            Case::Remove { src, rule: r @ Rule::Seq(_) } => json!({"kind":"remove_seq","src":src,"pipeline":r.to_json()}),
             Case::Remove { src, rule: Rule::Comments { lits, regexes } } => json!({
                 "kind":"remove_comments","src":src,
                 "lits": lits.iter().map(|l| json!([l.0, l.1, l.2])).collect::<Vec<_>>(),
@@ -144,6 +217,7 @@ impl Case {
                 src,
             }),
             "remove_spaces" => Some(Case::Remove { src, rule: Rule::Spaces }),
+            "remove_seq" => Some(Case::Remove { src, rule: Rule::from_json(&v["pipeline"])? }),
             "remove_comments" => {
                 let lits = v["lits"]
                     .as_array()
@@ -325,6 +399,12 @@ impl Ctx {
             ),
             Case::Remove { src, rule: Rule::Spaces } => {
                 format!("c18.remove_spaces {}", hex(src.as_bytes()))
+            }
+            Case::Remove { src, rule: r @ Rule::Seq(_) } => {
+                if r.has_regexes() {
+                    return None;
+                }
+                format!("c18.seq {} {}", hex(src.as_bytes()), r.words().join(" "))
             }
             Case::Remove { src, rule: Rule::Comments { lits, regexes } } => {
                 if !regexes.is_empty() {
@@ -556,7 +636,7 @@ fn oracle(
             if let Some(exp) = expected_comments {
                 // remove_spaces may glue a line comment to the line comment before it (the text stays
                 // inside a comment): compared as one byte string there, as a list otherwise
-                let glue_ok = matches!(case, Case::Remove { rule: Rule::Spaces, .. })
+                let glue_ok = matches!(case, Case::Remove { rule, .. } if rule.has_spaces())
                     && lo.comment_bytes().concat() == exp.concat()
                     && lo.coms.len() <= exp.len();
                 if &lo.comment_bytes() != exp && !glue_ok {
@@ -616,10 +696,45 @@ fn f30_trigger(l: &Lexed) -> bool {
     l.order.windows(2).any(|w| w[0].0 && !w[1].0 && l.toks[w[1].1].bytes == b"..." && !is_long_comment(&l.coms[w[0].1].0))
 }
 
+/// The separators between consecutive items of `out` (items as the reference lexer found them):
+/// Some(description) when one of them cannot have been written by the generator alone.
+fn leftover_whitespace(out: &str, l: &Lexed) -> Option<String> {
+    let b = out.as_bytes();
+    let mut cursor = 0usize;
+    let mut prev: Option<&[u8]> = None;
+    let tight = |t: &[u8]| matches!(t, b"(" | b")" | b"," | b";" | b"{" | b"}");
+    for (is_com, i) in &l.order {
+        let item: &[u8] = if *is_com { &l.coms[*i].0 } else { &l.toks[*i].bytes };
+        let start = cursor;
+        while cursor < b.len() && b[cursor].is_ascii_whitespace() {
+            cursor += 1;
+        }
+        if !b[cursor..].starts_with(item) {
+            return None; // cannot align (should not happen): no verdict
+        }
+        let gap = &b[start..cursor];
+        let only_newlines = gap.iter().all(|c| *c == b'\n' || *c == b'\r');
+        if !(gap.is_empty() || gap == b" " || only_newlines) {
+            return Some(format!("separator {:?} before {:?}", show(gap), show(item)));
+        }
+        if gap == b" " && !*is_com {
+            if let Some(p) = prev {
+                if tight(p) || tight(item) {
+                    return Some(format!("a blank between {:?} and {:?}", show(p), show(item)));
+                }
+            }
+        }
+        prev = if *is_com { None } else { Some(item) };
+        cursor += item.len();
+    }
+    None
+}
+
 /// comments the configuration keeps, from the reference lexer's comment list of the baseline
 fn expected_survivors(rule: &Rule, base_comments: &[Vec<u8>]) -> Vec<Vec<u8>> {
     match rule {
         Rule::Spaces => base_comments.to_vec(),
+        Rule::Seq(rs) => rs.iter().fold(base_comments.to_vec(), |acc, r| expected_survivors(r, &acc)),
         Rule::Comments { lits, regexes } => {
             let res: Vec<regex::Regex> =
                 regexes.iter().filter_map(|r| regex::Regex::new(r).ok()).collect();
@@ -878,7 +993,7 @@ fn judge(ctx: &mut Ctx, case: &Case, witness_mode: bool) -> Outcome {
             } else {
                 o.hist("remove_region", "inside");
             }
-            let spaces = matches!(rule, Rule::Spaces);
+            let spaces = rule.has_spaces();
             let f27 = spaces && (f27_trigger(&lbase) || f29_trigger(&lbase) || f30_trigger(&lbase));
             if spaces {
                 o.hist(
@@ -912,12 +1027,30 @@ fn judge(ctx: &mut Ctx, case: &Case, witness_mode: bool) -> Outcome {
                 "remove_lines",
                 if lo.lines() == lbase.lines() { "token lines kept" } else { "token lines changed (C04's concern)" },
             );
+            // correspondence with `removeSpaces_spec` (no whitespace trivia left on ANY carrier): what
+            // separates two items of the output is only what the generator itself writes — nothing, one
+            // blank, or line breaks — and never a blank next to `(` `)` `,` `;` `{` `}`
+            if spaces && !f27 && fails.is_empty() {
+                if let Some(bad) = leftover_whitespace(&out, &lo) {
+                    o.oracle_fails.push("corr:spaces_removed".to_owned());
+                    if !witness_mode {
+                        o.violate(
+                            "correspondence",
+                            "spaces_removed",
+                            format!("after remove_spaces the output {:?} still has whitespace trivia: {}", out, bad),
+                            case,
+                            false,
+                        );
+                    }
+                }
+            }
             let kept = expected.len();
             let total = lbase.coms.len();
             o.hist(
                 "remove_selection",
                 match rule {
                     Rule::Spaces => "remove_spaces".to_owned(),
+                    Rule::Seq(rs) => format!("pipeline: {}", rs.iter().map(|r| if matches!(r, Rule::Spaces) { "spaces" } else { "comments" }).collect::<Vec<_>>().join(" then ")),
                     Rule::Comments { lits, regexes } if lits.is_empty() && regexes.is_empty() => "remove_comments: no except".to_owned(),
                     Rule::Comments { .. } => format!(
                         "remove_comments: except keeps {}",
@@ -930,7 +1063,7 @@ fn judge(ctx: &mut Ctx, case: &Case, witness_mode: bool) -> Outcome {
                     match view {
                         Ok(view) => {
                             let real_code: Vec<Vec<u8>> = lo.toks.iter().map(|t| t.bytes.clone()).collect();
-                            let comments_differ = if matches!(rule, Rule::Spaces) {
+                            let comments_differ = if rule.has_spaces() {
                                 lo.comment_bytes().concat() != view.comments.concat()
                             } else {
                                 lo.comment_bytes() != view.comments
@@ -1272,6 +1405,329 @@ fn gen_rule(rng: &mut Rng, crlf: bool) -> Rule {
 }
 
 // ------------------------------------------------------------------------------------------
+// the carrier sweep: a comment as leading and as trailing trivia of every token of every construct
+
+#[derive(Clone, Debug)]
+struct CarrierSource {
+    src: String,
+    /// byte offset of the token the marker comment is attached to
+    offset: usize,
+    marker: String,
+    leading: bool,
+    labels: Vec<String>,
+    template: usize,
+    token: usize,
+}
+
+struct CTok {
+    text: String,
+    lead: Vec<String>,
+    trail: Vec<String>,
+}
+
+fn parse_template(t: &str) -> Vec<CTok> {
+    t.split(' ')
+        .filter(|w| !w.is_empty())
+        .map(|w| {
+            let (text, labels) = match w.split_once('§') {
+                Some((a, b)) => (a, b),
+                None => (w, ""),
+            };
+            let mut tok = CTok { text: text.replace('·', " "), lead: Vec::new(), trail: Vec::new() };
+            for l in labels.split('+').filter(|l| !l.is_empty()) {
+                if let Some(l) = l.strip_prefix('<') {
+                    tok.lead.push(l.to_owned());
+                } else if let Some(l) = l.strip_prefix('>') {
+                    tok.trail.push(l.to_owned());
+                } else {
+                    tok.lead.push(l.to_owned());
+                    tok.trail.push(l.to_owned());
+                }
+            }
+            tok
+        })
+        .collect()
+}
+
+/// `prev NL marker token` (leading) or `token marker NL next` (trailing); a decoy comment ends the file
+fn carrier_sources() -> Vec<CarrierSource> {
+    let mut out = Vec::new();
+    for (ti, t) in carriers::TEMPLATES.iter().enumerate() {
+        let toks = parse_template(t);
+        for i in 0..toks.len() {
+            for leading in [true, false] {
+                for long in [false, true] {
+                    let labels = if leading { toks[i].lead.clone() } else { toks[i].trail.clone() };
+                    // unlabelled tokens: one comment form per side is enough
+                    if labels.is_empty() && long != ((i + ti) % 2 == 0) {
+                        continue;
+                    }
+                    let marker = if long { "--[[@K]]".to_owned() } else { "--@K".to_owned() };
+                    let mut s = String::new();
+                    let mut offset = 0;
+                    for (j, tk) in toks.iter().enumerate() {
+                        if j == i && leading {
+                            if !s.is_empty() {
+                                s.push('\n');
+                            }
+                            s.push_str(&marker);
+                            s.push_str(if long { " " } else { "\n" });
+                        } else if j > 0 && !s.ends_with('\n') {
+                            s.push(' ');
+                        }
+                        if j == i {
+                            offset = s.len();
+                        }
+                        s.push_str(&tk.text);
+                        if j == i && !leading {
+                            s.push(' ');
+                            s.push_str(&marker);
+                            s.push('\n');
+                        }
+                    }
+                    if !s.ends_with('\n') {
+                        s.push('\n');
+                    }
+                    s.push_str("--@D");
+                    out.push(CarrierSource { src: s, offset, marker, leading, labels, template: ti, token: i });
+                }
+            }
+        }
+    }
+    // the end-of-file token: comments after the last statement are its leading trivia
+    for marker in ["--@K", "--[[@K]]"] {
+        out.push(CarrierSource {
+            src: format!("--@D\nf ( )\n{}", marker),
+            offset: usize::MAX,
+            marker: marker.to_owned(),
+            leading: true,
+            labels: vec!["Block.tokens".to_owned(), "BlockTokens.final_token".to_owned()],
+            template: usize::MAX,
+            token: 0,
+        });
+    }
+    out
+}
+
+/// Is the marker comment leading / trailing trivia of the token at `offset`, for the tokenizer darklua parses with?
+fn attachment_holds(c: &CarrierSource) -> Option<bool> {
+    use full_moon::node::Node;
+    use full_moon::tokenizer::TokenReference;
+    let c = c.clone();
+    std::panic::catch_unwind(move || {
+        let ast = full_moon::parse_fallible(&c.src, full_moon::LuaVersion::luau()).into_result().ok()?;
+        let check = |t: &TokenReference| -> bool {
+            if c.leading {
+                t.leading_trivia().any(|tr| tr.to_string() == c.marker)
+            } else {
+                t.trailing_trivia().any(|tr| tr.to_string() == c.marker)
+            }
+        };
+        if c.offset == usize::MAX {
+            return Some(check(ast.eof()));
+        }
+        for t in ast.nodes().tokens() {
+            if t.token().start_position().bytes() == c.offset {
+                return Some(check(t));
+            }
+        }
+        Some(false)
+    })
+    .ok()
+    .flatten()
+}
+
+/// the rule pipelines every carrier source goes through
+fn carrier_rules() -> Vec<Rule> {
+    let keep = |m: &str| Rule::Comments { lits: vec![(false, false, m.to_owned())], regexes: vec![] };
+    let none = Rule::Comments { lits: vec![], regexes: vec![] };
+    vec![
+        keep("@K"),
+        keep("@D"),
+        keep("@"),
+        none.clone(),
+        Rule::Comments { lits: vec![], regexes: vec!["@K\\b".to_owned()] },
+        Rule::Spaces,
+        Rule::Seq(vec![keep("@K"), Rule::Spaces]),
+        Rule::Seq(vec![Rule::Spaces, keep("@K")]),
+        Rule::Seq(vec![keep("@D"), Rule::Spaces]),
+        Rule::Seq(vec![Rule::Spaces, keep("@D")]),
+        Rule::Seq(vec![none.clone(), Rule::Spaces]),
+        Rule::Seq(vec![Rule::Spaces, none]),
+    ]
+}
+
+/// (struct, section, field) of every `impl_token_fns!` use under `<repo>/src/nodes`
+fn repo_carriers(repo: &str) -> Result<Vec<String>, String> {
+    fn walk(dir: &std::path::Path, out: &mut Vec<std::path::PathBuf>) {
+        if let Ok(rd) = std::fs::read_dir(dir) {
+            for e in rd.filter_map(|e| e.ok()) {
+                let p = e.path();
+                if p.is_dir() {
+                    walk(&p, out);
+                } else if p.extension().map(|x| x == "rs").unwrap_or(false) {
+                    out.push(p);
+                }
+            }
+        }
+    }
+    let root = std::path::Path::new(repo).join("src/nodes");
+    let mut files = Vec::new();
+    walk(&root, &mut files);
+    if files.is_empty() {
+        return Err(format!("no sources under {}", root.display()));
+    }
+    let use_re = regex::Regex::new(r"impl_token_fns!\s*\(").unwrap();
+    let impl_re = regex::Regex::new(r"(?m)^impl(?:<[^>]*>)?\s+(\w+)").unwrap();
+    let field_re = regex::Regex::new(r"(?:r#)?(\w+)").unwrap();
+    let mut out = Vec::new();
+    for f in files {
+        if f == root.join("mod.rs") {
+            continue; // the macro definition itself
+        }
+        let s = std::fs::read_to_string(&f).map_err(|e| e.to_string())?;
+        for m in use_re.find_iter(&s) {
+            let bytes = s.as_bytes();
+            let (mut i, mut depth) = (m.end(), 1);
+            while depth > 0 && i < bytes.len() {
+                match bytes[i] {
+                    b'(' => depth += 1,
+                    b')' => depth -= 1,
+                    _ => {}
+                }
+                i += 1;
+            }
+            let args = &s[m.end()..i - 1];
+            let name = impl_re
+                .captures_iter(&s[..m.start()])
+                .last()
+                .map(|c| c[1].to_owned())
+                .ok_or_else(|| format!("{}: impl_token_fns! outside an impl", f.display()))?;
+            for sec in ["target", "iter_flatten", "iter"] {
+                let sec_re = regex::Regex::new(&format!(r"(?s)\b{}\s*=\s*\[(.*?)\]", sec)).unwrap();
+                if let Some(c) = sec_re.captures(args) {
+                    for fld in field_re.captures_iter(&c[1]) {
+                        out.push(format!("{}:{}:{}", name, sec, &fld[1]));
+                    }
+                }
+            }
+        }
+    }
+    out.sort();
+    out.dedup();
+    Ok(out)
+}
+
+/// The sweep: returns the cases to run; fills the histogram `carrier` and the self-checks
+/// `carrier_list` (model list = repository list) and `carrier_coverage` (no carrier without a case).
+fn carrier_sweep(report: &mut Report, ctx: &mut Ctx) -> Vec<Case> {
+    let self_check = |report: &mut Report, check: &str, what: String| {
+        if std::env::var("C18_DEBUG").is_ok() {
+            eprintln!("self-check {}: {}", check, what);
+        }
+        report.violation(Violation {
+            kind: "correspondence".into(),
+            check: check.into(),
+            what,
+            input: json!({"kind": "self-check"}),
+            failing_input_found: false,
+        });
+    };
+    // the model's list against the repository under test
+    let model_list: Vec<String> = {
+        let ans = ctx.model.ask("c18.carriers");
+        let mut v: Vec<String> = ans.split(',').map(str::to_owned).collect();
+        v.sort();
+        v
+    };
+    let repo = std::env::var("VERIF_REPO").unwrap_or_else(|_| "/repo".to_owned());
+    match repo_carriers(&repo) {
+        Ok(real) => {
+            let missing: Vec<&String> = real.iter().filter(|c| !model_list.contains(c)).collect();
+            let stale: Vec<&String> = model_list.iter().filter(|c| !real.contains(c)).collect();
+            report.count("carriers_in_repository", real.len() as u64);
+            if !missing.is_empty() || !stale.is_empty() {
+                self_check(
+                    report,
+                    "carrier_list",
+                    format!("impl_token_fns! uses in {}/src/nodes not in Carriers.lean: {:?}; in Carriers.lean but not in the source: {:?}", repo, missing, stale),
+                );
+            }
+        }
+        Err(e) => self_check(report, "carrier_list", format!("cannot read the carriers of the repository: {}", e)),
+    }
+    let known: Vec<String> = model_list
+        .iter()
+        .map(|c| {
+            let p: Vec<&str> = c.split(':').collect();
+            format!("{}.{}", p[0], p[2])
+        })
+        .collect();
+    // sources, attachment check, coverage
+    let sources = carrier_sources();
+    let rules = carrier_rules();
+    let mut cases = Vec::new();
+    let mut covered: HashMap<(String, bool), u64> = HashMap::new();
+    for c in &sources {
+        for l in &c.labels {
+            if !l.starts_with("manual:") && !known.contains(l) {
+                self_check(report, "carrier_coverage", format!("template {} labels a carrier that is not in the list: {}", c.template, l));
+            }
+        }
+        if ctx.baseline(&c.src).is_err() {
+            report.hist("carrier_sources", "darklua rejects the source");
+            if !c.labels.is_empty() {
+                self_check(report, "carrier_coverage", format!("darklua rejects a carrier source (template {}, token {}): {:?}", c.template, c.token, c.src));
+            }
+            continue;
+        }
+        let attached = attachment_holds(c) == Some(true);
+        if !attached && std::env::var("C18_DEBUG").is_ok() {
+            eprintln!("not attached as intended: template {} token {} leading={} {:?}", c.template, c.token, c.leading, c.src);
+        }
+        report.hist(
+            "carrier_sources",
+            if attached { "marker attached as intended (checked with full_moon)" } else { "marker attached to another token" },
+        );
+        if attached {
+            let labels: Vec<String> = if c.labels.is_empty() { vec!["(token without its own label)".to_owned()] } else { c.labels.clone() };
+            for l in labels {
+                *covered.entry((l.clone(), c.leading)).or_default() += rules.len() as u64;
+                for _ in 0..rules.len() {
+                    report.hist("carrier", &format!("{} [{}]", l, if c.leading { "leading" } else { "trailing" }));
+                }
+            }
+        }
+        for r in &rules {
+            cases.push(Case::Remove { src: c.src.clone(), rule: r.clone() });
+        }
+    }
+    for u in carriers::UNPARSEABLE {
+        if run_real(u, NO_RULES).is_ok() {
+            self_check(report, "carrier_coverage", format!("darklua now parses {:?}: the exemption of the attribute-group carriers is out of date", u));
+        }
+    }
+    for k in known.iter() {
+        let exempt = carriers::EXEMPT.iter().find(|e| e.0 == k);
+        for leading in [true, false] {
+            let is_exempt = exempt.map(|e| if leading { e.1 } else { e.2 }).unwrap_or(false);
+            let n = covered.get(&(k.clone(), leading)).cloned().unwrap_or(0);
+            if n == 0 && !is_exempt {
+                self_check(
+                    report,
+                    "carrier_coverage",
+                    format!("carrier {} has no case with a comment as {} trivia", k, if leading { "leading" } else { "trailing" }),
+                );
+            }
+        }
+    }
+    report.count("carriers_in_model_list", known.len() as u64);
+    report.count("carrier_cases", cases.len() as u64);
+    report.exhaustive.insert("every impl_token_fns! carrier x {leading, trailing} comment x 12 rule pipelines".into(), true);
+    cases
+}
+
+// ------------------------------------------------------------------------------------------
 // driving
 
 fn run_parallel(cases: Vec<Case>, cross_check: bool) -> Vec<(Case, Outcome)> {
@@ -1508,6 +1964,11 @@ pub fn run(report: &mut Report, replay: Option<&str>) {
     let r = run_parallel(corpus, true);
     fold(report, &mut ctx, r);
     replay_known_findings(report, &mut ctx);
+
+    // 0b. every token carrier of the AST
+    let cases = carrier_sweep(report, &mut ctx);
+    let r = run_parallel(cases, true);
+    fold(report, &mut ctx, r);
 
     // 1. append_text_comment: exhaustive family
     let mut cases = Vec::new();
